@@ -496,6 +496,124 @@ Definition case_copy (l : list Z) : list Z :=
   | _ => [-1]
   end.
 
+
+(** ** The path-based API on a directory (kind 16; Model/Paths.v)
+    [16; complete; nstale; (name; size)*; name; history; rmname; nq; (name; want bytes)*; nops; ops] *)
+From SF Require Import Model.Paths.
+Definition K_PATH : Z := 16.
+Definition MAGIC : bytes := [0; 0; 39; 10].
+Definition stale_content (size : Z) : bytes := MAGIC ++ repeat_Z 0 (Z.to_nat (Z.max size 4) - 4).
+Definition p_stale : parser (fname * Z) := n <- p_bytes ;; s <- p_next ;; p_ret (n, s).
+Definition p_query : parser (fname * bool) := n <- p_bytes ;; w <- p_next ;; p_ret (n, w =? 1).
+Definition p_tail {A} (p_op : parser A) : parser (fname * list (fname * bool) * list A) :=
+  rm <- p_bytes ;; qs <- p_list p_query ;; ops <- p_list p_op ;; p_ret (rm, qs, ops).
+
+Definition r_query (f : dir) (q : fname * bool) : list Z :=
+  match fs_get f (fst q) with
+  | None => [-1]
+  | Some (FRows _) => [-2]
+  | Some (FBytes b) => if name_eqb (firstn 4 b) MAGIC then zlen b :: (if snd q then b else []) else [-2]
+  end.
+
+Definition after_writer (f1 : dir) (rm : fname) (qs : list (fname * bool)) : list Z * dir :=
+  let removed := match rm with [] => false | _ => fs_exists f1 rm end in
+  let f2 := match rm with [] => f1 | _ => fs_remove f1 rm end in
+  ([r_bool removed; zlen f2] ++ flat_map (r_query f2) qs, f2).
+
+Definition index_of (shxo : option bytes) : res (list (Z * Z)) :=
+  match shxo with Some b => fst (run read_index_file (src_of b)) | None => Ok [] end.
+
+Definition read_part (shp : bytes) (shxo : option bytes) (ops : list rop) : list Z :=
+  let cap := (length shp / 12 + length (match shxo with Some b => b | None => [] end) / 8 + 2)%nat in
+  match index_of shxo with
+  | Err e => 1 :: err_codes e
+  | Panic => [2]
+  | Ok index =>
+      let open := match shxo with Some _ => r_with_shx index | None => r_new end in
+      let p := st <-- open ;; out <-- run_rops cap None st ops ;; Ret (r_header (r_hdr st) ++ out) in
+      r_final (fun x => x) (fst (run p (src_of shp)))
+  end.
+
+Definition pair_part (shp : bytes) (shxo : option bytes) (rows : list Z) (ops : list (bool * (nat -> ccall))) : list Z :=
+  let cap := (length shp / 12 + length (match shxo with Some b => b | None => [] end) / 8 + 2)%nat in
+  match index_of shxo with
+  | Err e => 1 :: err_codes e
+  | Panic => [2]
+  | Ok index =>
+      let open := match shxo with Some _ => r_with_shx index | None => r_new end in
+      let p := st0 <-- open ;; out <-- c_calls None rows (mkcr st0 0) (map (fun f => snd f cap) ops) ;;
+               Ret (flat_map (fun x => r_cout_for (fst (fst x)) (snd x)) (combine ops out)) in
+      r_res (fun x => x) (fst (run p (src_of shp)))
+  end.
+
+Definition has_heal (cs : list wcall) : bool := existsb (fun c => match c with CHeal => true | _ => false end) cs.
+
+Definition case_path_shape (f0 : dir) (name : fname) (rest : list Z) : list Z :=
+  match rest with
+  | ending :: rest1 =>
+      match p_list p_call rest1 with
+      | Some (pcs, rest2) =>
+          match p_tail p_rop rest2, build_calls pcs with
+          | Some ((rm, qs, ops), []), Some cs =>
+              if has_heal cs then [-1] else
+              match write_by_path f0 name cs (if ending =? 1 then EFinalizeDrop else EDrop) with
+              | None => [-7]
+              | Some (rs, f1) =>
+                  let '(o, f2) := after_writer f1 rm qs in
+                  zlen rs :: flat_map r_unit_res rs ++ o ++
+                  match sr_open f2 name with
+                  | ONotFound => [1; 13]
+                  | OUnmodelled => [-7]
+                  | OOpen shp shxo => read_part shp shxo ops
+                  end
+              end
+          | Some (_, []), None => [-3]
+          | _, _ => [-1]
+          end
+      | None => [-1]
+      end
+  | [] => [-1]
+  end.
+
+Definition case_path_complete (f0 : dir) (name : fname) (rest : list Z) : list Z :=
+  match p_list p_pcall rest with
+  | Some (pcs, rest2) =>
+      match p_tail p_cop rest2, number_calls 0 pcs with
+      | Some ((rm, qs, ops), []), Some calls =>
+          if name_eqb (with_ext name SHX) name || name_eqb (with_ext name DBF) name then [-7] else
+          let '(rs, st, w) := cw_calls calls cw_new world0 in
+          let w' := w_drop (cw_shape st) w in
+          let '(o, f2) := after_writer (cw_store f0 name w' (cw_rows st)) rm qs in
+          zlen rs :: flat_map r_unit_res rs ++ o ++
+          match cr_open f2 name with
+          | CMissingDbf => [1; 12]
+          | CShape ONotFound => [1; 13]
+          | CShape _ => [-7]
+          | COpen shp shxo rows => pair_part shp shxo rows ops
+          end
+      | Some (_, []), None => [-3]
+      | _, _ => [-1]
+      end
+  | None => [-1]
+  end.
+
+Definition case_path (l : list Z) : list Z :=
+  match l with
+  | complete :: rest0 =>
+      match p_list p_stale rest0 with
+      | Some (stale, rest1) =>
+          match p_bytes rest1 with
+          | Some (name, rest2) =>
+              let f0 := fold_left (fun f s => fs_set f (fst s) (FBytes (stale_content (snd s)))) stale [] in
+              if negb (name_ok name) then [-1]
+              else if complete =? 1 then case_path_complete f0 name rest2 else case_path_shape f0 name rest2
+          | None => [-1]
+          end
+      | None => [-1]
+      end
+  | [] => [-1]
+  end.
+
 Definition run_case2 (l : list Z) : list Z :=
   match l with
   | k :: r =>
@@ -505,6 +623,7 @@ Definition run_case2 (l : list Z) : list Z :=
       else if k =? K_CONV then case_conv r
       else if k =? K_PAIR then case_pair r
       else if k =? K_COPY then case_copy r
+      else if k =? K_PATH then case_path r
       else if k =? K_GEO_TO then case_geo_to r
       else if k =? K_GEO_FROM then case_geo_from r
       else if k =? K_GEO_FILE then case_geo_file r
